@@ -113,6 +113,13 @@ func checkDescriptor(in []byte, chunk int) error {
 	if !bytes.Equal(mb.Bytes(), in[:n]) {
 		return fmt.Errorf("Marshal of the decoded descriptor gives %d bytes, %d were consumed (equal prefix %d)", mb.Len(), n, commonPrefix(mb.Bytes(), in[:n]))
 	}
+	// encoding into a buffer that already holds bytes (the attribute prefix of a variable file, an earlier descriptor) appends
+	pre := bytes.NewBuffer([]byte{7, 0, 0, 0, 1, 2, 3, 4, 5, 6, 7, 8, 9, 10, 11, 12, 13, 14, 15, 16, 17, 18, 19, 20, 21, 22, 23})
+	prefix := append([]byte{}, pre.Bytes()...)
+	got.Marshal(pre)
+	if !bytes.Equal(pre.Bytes(), append(prefix, in[:n]...)) {
+		return fmt.Errorf("Marshal into a buffer that already holds %d bytes does not append the consumed bytes to them (first difference at %d)", len(prefix), commonPrefix(pre.Bytes(), append(prefix, in[:n]...)))
+	}
 	var wb bytes.Buffer
 	signature.WriteEFIVariableAuthencation2(&wb, *got)
 	if !bytes.Equal(wb.Bytes(), in[:n]) {
